@@ -6,5 +6,6 @@ CONSTANTS
   OpCap = 1
   ResCap = 2
   ReplyLocksTarget = TRUE
+  SafeCompletion = TRUE
 INVARIANTS Inv_NoPanic Inv_Pairing Inv_PerCallerOrder Inv_NoStuck
 CHECK_DEADLOCK FALSE
